@@ -195,6 +195,13 @@ def work(ctx, tier):
             for base, mx in PARAMS:
                 f = fac(base_s=base, max_s=mx)
                 built[(name, base, mx)] = (f, _normalize_strategy(f), g)
+        # ... and each factory called with no arguments at all: the documented defaults (docs/concepts/strategies.md: base_s=0.25 for all
+        # three, max_s=30.0 for decorrelated_jitter and equal_jitter, 20.0 for token_backoff) are a parameterisation like any other
+        DOCUMENTED_DEFAULTS = {"decorrelated_jitter": (0.25, 30.0), "equal_jitter": (0.25, 30.0), "token_backoff": (0.25, 20.0)}
+        for name, fac, g in facts:
+            f = fac()
+            built[(name,) + DOCUMENTED_DEFAULTS[name]] = (f, _normalize_strategy(f), g)
+            ctx.cnt["strategies_built_with_default_parameters"] += 1
         keys = sorted(built)
         # systematic part: every (strategy, params, attempt) x draw mode x a few prevs  (strided over shards)
         idx = 0
